@@ -12,10 +12,11 @@ import Mathlib.Tactic.Linarith
 
 Property theorems (all for unbounded histories / list lengths, over exact rationals):
 
-* `slot_inv`, `slot_beta_monotone`, `sample_guard`                         (VrpProofs/C18/Slot.lean)
+* `slot_inv`, `slot_beta_monotone`, `slot_beta_welford`, `sample_guard`    (VrpProofs/C18/Slot.lean)
 * `argmax_in_range`, `argmax_mem_argmaxSet`, `weighted_in_range`           (VrpProofs/C18/Select.lean)
 * `reward_range`, `reward_range_any_sign`, `reward_documented_range_single_objective`,
-  `reward_documented_range_fails` (S26), `perf_range`, `final_reward_range` (VrpProofs/C18/Reward.lean)
+  `reward_documented_range_fails` (S26), `perf_range`, `final_reward_range`, `relDistance_sign`,
+  `reward_pos_iff_improves_parent`                                         (VrpProofs/C18/Reward.lean)
 * `maxGen_estimate_in_unit_interval`, `maxGen_estimate_one_iff_stop`, `composite_estimate_in_unit_interval`,
   `targetStop_iff_distance_below`, `cvGt_iff_sqrt`, `cvGt_eq_not_spec`     (VrpProofs/C18/Termination.lean)
 * `variation_fires_iff_sample`, `variation_fires_iff_sample_cv`            (VrpProofs/C18/Sample.lean)
